@@ -249,6 +249,7 @@ func (fe *FuncEnc) valAs(v ssa.Value, want types.Type) Term {
 }
 
 func (fe *FuncEnc) execBlock(f *Frame, b *ssa.BasicBlock, st *State, reach Term, ci *cfgInfo) {
+	f.curSt = st
 	for _, in := range b.Instrs {
 		switch x := in.(type) {
 		case *ssa.Phi:
@@ -309,8 +310,15 @@ func (fe *FuncEnc) loopContract(f *Frame, li *loopInfo) *LoopContract {
 }
 
 // loopNames binds source-level names visible in loop contracts to terms.
-func (fe *FuncEnc) loopNames(f *Frame, li *loopInfo, phiVal func(*ssa.Phi) Term) map[string]TV {
+func (fe *FuncEnc) loopNames(f *Frame, li *loopInfo, phiVal func(*ssa.Phi) Term, st *State) map[string]TV {
 	m := map[string]TV{}
+	for _, in := range li.header.Instrs {
+		if nx, ok := in.(*ssa.Next); ok {
+			if info := f.mapRange[nx.Iter]; info != nil {
+				m["pos"] = TV{fe.comp(st, "RN_"+info.visComp, SInt), types.Typ[types.Int]}
+			}
+		}
+	}
 	for _, in := range li.header.Instrs {
 		phi, ok := in.(*ssa.Phi)
 		if !ok {
@@ -347,7 +355,7 @@ func (fe *FuncEnc) enterLoop(f *Frame, li *loopInfo, reach Term, st *State) (Ter
 	}
 	// inv.entry
 	if lc != nil {
-		names := fe.loopNames(f, li, func(p *ssa.Phi) Term { return entryVals[p] })
+		names := fe.loopNames(f, li, func(p *ssa.Phi) Term { return entryVals[p] }, st)
 		for _, inv := range lc.Invariants {
 			t := fe.evalClause(f, inv, st, f.entry, names, nil, b2pos(h, pos))
 			fe.emit("inv.entry", fmt.Sprintf("loop%d.%s", li.ord, inv.Label), reach, t, inv.Text, pos)
@@ -388,7 +396,7 @@ func (fe *FuncEnc) enterLoop(f *Frame, li *loopInfo, reach Term, st *State) (Ter
 	if f.mon != nil {
 		fe.monLoopHavoc(f, li, st, reach)
 	}
-	names := fe.loopNames(f, li, func(p *ssa.Phi) Term { return f.vals[p] })
+	names := fe.loopNames(f, li, func(p *ssa.Phi) Term { return f.vals[p] }, st)
 	if lc != nil {
 		for _, inv := range lc.Invariants {
 			t := fe.evalClause(f, inv, st, f.entry, names, nil, b2pos(h, pos))
@@ -427,7 +435,7 @@ func (fe *FuncEnc) backEdge(f *Frame, li *loopInfo, from *ssa.BasicBlock, cond T
 	if lc == nil {
 		return
 	}
-	names := fe.loopNames(f, li, phiVal)
+	names := fe.loopNames(f, li, phiVal, st)
 	for _, inv := range lc.Invariants {
 		t := fe.evalClause(f, inv, st, f.entry, names, nil, pos)
 		fe.emit("inv.step", fmt.Sprintf("loop%d.%s", li.ord, inv.Label), cond, t, inv.Text, pos)
@@ -670,6 +678,10 @@ func (fe *FuncEnc) doAlloc(f *Frame, x *ssa.Alloc, st *State, path Term) {
 	}
 	h := fe.comp(st, comp, arrSort(SInt, s))
 	fe.setComp(st, comp, tStore(h, ref, so.zeroOfSort(s)))
+	if comp == "X_strings_Builder" {
+		hs := fe.comp(st, "XS_strings_Builder", arrSort(SInt, SStr))
+		fe.setComp(st, "XS_strings_Builder", tStore(hs, ref, Term{"str_empty", SStr}))
+	}
 	f.vals[x] = ref
 	f.addrs[x] = &Addr{Comp: comp, Kind: aCell, Ref: ref, Typ: elem}
 }
@@ -679,7 +691,7 @@ func (fe *FuncEnc) checkEscape(f *Frame, x *ssa.IndexAddr, st *State, path Term)
 	escapes := false
 	for _, r := range *x.Referrers() {
 		switch u := r.(type) {
-		case *ssa.UnOp, *ssa.FieldAddr, *ssa.DebugRef:
+		case *ssa.UnOp, *ssa.FieldAddr, *ssa.DebugRef, *ssa.BinOp:
 		case *ssa.Store:
 			if u.Addr != x {
 				escapes = true
@@ -757,6 +769,19 @@ func (fe *FuncEnc) doUnOp(f *Frame, x *ssa.UnOp, st *State, path Term) {
 }
 
 func (fe *FuncEnc) doBinOp(f *Frame, x *ssa.BinOp, st *State, path Term) {
+	if ax, ok := f.addrs[x.X]; ok {
+		if ay, ok := f.addrs[x.Y]; ok && (x.Op == token.EQL || x.Op == token.NEQ) && ax.Kind == aElem && ay.Kind == aElem && len(ax.Path) == 0 && len(ay.Path) == 0 {
+			eq := tAnd(tEq(ax.Ref, ay.Ref), tEq(ax.Idx, ay.Idx))
+			if ax.Comp != ay.Comp {
+				eq = tBool(false)
+			}
+			if x.Op == token.NEQ {
+				eq = tNot(eq)
+			}
+			fe.setVal(x, eq)
+			return
+		}
+	}
 	a := fe.valAs(x.X, x.Y.Type())
 	b := fe.valAs(x.Y, x.X.Type())
 	if a.Sort != b.Sort && x.Op != token.SHL && x.Op != token.SHR {
@@ -922,7 +947,7 @@ func (fe *FuncEnc) doConvert(f *Frame, x *ssa.Convert, st *State, path Term) {
 	fs, ts := so.sortOf(x.X.Type()), so.sortOf(x.Type())
 	switch {
 	case fs == SBV64 && ts == SF64:
-		fe.setVal(x, Term{"((_ to_fp 11 53) RNE " + v.S + ")", SF64})
+		fe.setVal(x, Term{"(ofInt " + v.S + ")", SF64})
 	case fs == SF64 && ts == SBV64:
 		fe.setVal(x, Term{"(f2i64 " + v.S + ")", SBV64})
 		fe.assumes["float64->int64 conversion follows amd64 CVTTSD2SI (out-of-range and NaN give 0x8000000000000000)"] = true
